@@ -237,7 +237,7 @@ def check_instance(payload, K, st: Stats, doc_skip=False, collect=None):
 
 
 # ---------------------------------------------------------------------------------------------------------
-def concrete_run(arch, wl, sk, opts, vpa, trips, costs=None):
+def concrete_run(arch, wl, sk, opts, vpa, trips, costs=None, wl_opts=None):
     """The real evaluate_mapping on numbers (public API, nothing patched).  Returns the first row
     of the result as a dict."""
     from accelforge.util.parallel import set_n_parallel_jobs
@@ -252,7 +252,7 @@ def concrete_run(arch, wl, sk, opts, vpa, trips, costs=None):
             tile[i] = prod
             prod *= trips[i]
         bounds[rv] = prod
-    spec = M.build_spec(arch, wl, sk, opts, bounds=bounds, tile_shapes=tile)
+    spec = M.build_spec(arch, wl, sk, opts, bounds=bounds, tile_shapes=tile, wl_opts=wl_opts)
     costs = costs or {}
     from accelforge.frontend import arch as A
     for c in spec.arch.get_nodes_of_type(A.Component):
